@@ -151,9 +151,9 @@ fn render(case: &[u8]) -> Value {
 pub fn real_addresses(a: &AV) -> v2::Addresses {
     match a {
         AV::None => v2::Addresses::Unspecified,
-        AV::V4 { src, dst, sport, dport } => v2::Addresses::IPv4(v2::IPv4 { source_address: Ipv4Addr::from(*src), source_port: *sport, destination_address: Ipv4Addr::from(*dst), destination_port: *dport }),
-        AV::V6 { src, dst, sport, dport } => v2::Addresses::IPv6(v2::IPv6 { source_address: Ipv6Addr::from(*src), source_port: *sport, destination_address: Ipv6Addr::from(*dst), destination_port: *dport }),
-        AV::Unix { src, dst } => v2::Addresses::Unix(v2::Unix { source: *src, destination: *dst }),
+        AV::V4 { src, dst, sport, dport } => v2::Addresses::IPv4(super::values::make_v4(*src, *dst, *sport, *dport)),
+        AV::V6 { src, dst, sport, dport } => v2::Addresses::IPv6(super::values::make_v6(*src, *dst, *sport, *dport)),
+        AV::Unix { src, dst } => v2::Addresses::Unix(super::values::make_unix(*src, *dst)),
     }
 }
 
